@@ -32,6 +32,10 @@ GRAPHS = {
                        deps=dict(Src=[], M=["src"], PW=["mx", "my"])),
     "diamond": dict(types=["src", "pa", "pb", "pc"], plugin=dict(src="Src", pa="PA", pb="PB", pc="PC"),
                     deps=dict(Src=[], PA=["src"], PB=["src"], PC=["pa", "pb"])),
+    # as multi_both, but one output reaches the consumer through a plugin that reads its whole input before it delivers anything
+    # (ExhaustPlugin): the multi-output plugin has finished before the consumer asks for the first chunk of the other output
+    "multi_lag": dict(types=["src", "mx", "my", "pe", "pw"], plugin=dict(src="Src", mx="M", my="M", pe="PE", pw="PW"),
+                      deps=dict(Src=[], M=["src"], PE=["mx"], PW=["pe", "my"])),
 }
 POLICIES = {
     "chain": [dict(src="ALWAYS", pa="ALWAYS", pb="ALWAYS"), dict(src="ALWAYS", pa="TARGET", pb="EXPLICIT"),
@@ -40,6 +44,7 @@ POLICIES = {
               dict(src="TARGET", mx="EXPLICIT", my="NEVER", pz="ALWAYS"), dict(src="ALWAYS", mx="NEVER", my="TARGET", pz="EXPLICIT")],
     "multi_both": [dict(src="ALWAYS", mx="ALWAYS", my="ALWAYS", pw="ALWAYS"), dict(src="ALWAYS", mx="TARGET", my="EXPLICIT", pw="TARGET")],
     "diamond": [dict(src="ALWAYS", pa="ALWAYS", pb="TARGET", pc="ALWAYS"), dict(src="EXPLICIT", pa="TARGET", pb="NEVER", pc="TARGET")],
+    "multi_lag": [dict(src="ALWAYS", mx="ALWAYS", my="EXPLICIT", pe="NEVER", pw="NEVER")],
 }
 
 
@@ -56,6 +61,9 @@ def classes_for(graph, policy, rec=None):
     if graph == "multi_both":
         return [src, H.multi(("mx", "my"), "src", save_when={"mx": sw["mx"], "my": sw["my"]}, rec=rec),
                 H.pair("pw", "mx", "my", save_when=sw["pw"], rec=rec)]
+    if graph == "multi_lag":
+        return [src, H.multi(("mx", "my"), "src", save_when={"mx": sw["mx"], "my": sw["my"]}, rec=rec),
+                H.exhaust("pe", "mx", save_when=sw["pe"], rec=rec), H.pair("pw", "pe", "my", save_when=sw["pw"], rec=rec)]
     return [src, H.samekind_map("pa", "src", "ab", "va", add=1, save_when=sw["pa"], rec=rec, rechunk_on_save=False),
             H.samekind_map("pb", "src", "ab", "vb", mul=2, save_when=sw["pb"], rec=rec, rechunk_on_save=False),
             H.combine("pc", ("pa", "pb"), ("va", "vb"), save_when=sw["pc"], rec=rec, rechunk_on_save=False)]
@@ -281,6 +289,13 @@ def _enumerate(arg):
                 out=r.out[-1500:] if (not r.ok or r.violated) else "")
 
 
+def critical(g, c):
+    """requests that are always executed, also in the quick tier: a plain request for the consumer of both outputs of a multi-output
+    plugin with exactly one of the outputs stored"""
+    return (g in ("multi_both", "multi_lag") and c["target"] == "pw" and c["mod"] == "none" and c["forbid"] == "none" and not c["save"]
+            and len({"mx", "my"} & set(c["stored"])) == 1 and "pw" not in c["stored"])
+
+
 def _execute_any(arg):
     return execute(arg[1:]) if arg[0] == "main" else execute_fe(arg[1:])
 
@@ -307,10 +322,10 @@ def run(chk):
         rng = __import__("random").Random(chk.seed + e["pi"] + (100 if e["family"] == "fe" else 0))
         g = e["graph"]
         if e["family"] == "main":
-            frac = dict(chain=0.06, multi=0.012, multi_both=0.008, diamond=0.012)[g] if quick else 1.0
+            frac = dict(chain=0.06, multi=0.012, multi_both=0.008, diamond=0.012, multi_lag=0.002)[g] if quick else (0.2 if g == "multi_lag" else 1.0)
         else:
             frac = (0.04 if g == "chain" else 0.006) if quick else (0.5 if g == "chain" else 0.08)
-        cases = [c for c in e["cases"] if rng.random() < frac]
+        cases = [c for c in e["cases"] if rng.random() < frac or (e["family"] == "main" and critical(g, c))]
         tpl = template_dir(g)
         for c in cases:
             work.append(("main", g, e["policy"], e["writable"], c, tpl) if e["family"] == "main" else ("fe", g, e["policy"], c, tpl))
